@@ -589,6 +589,98 @@ impl C07Conc {
     }
 }
 
+/// An empty UDP datagram (legal, anyone can send one) right ahead of a query, with nothing
+/// after it: the query must be answered all the same.  `empties` empty datagrams and then the
+/// query are sent back to back from one socket to a fresh server, `repeat` times with pauses
+/// of 700 ms in which nothing else reaches that socket.
+#[derive(Clone, Debug, Serialize, Deserialize, PartialEq)]
+pub struct EmptyAheadCase {
+    pub listener: u8,
+    pub empties: u8,
+    pub repeat: u8,
+}
+
+impl C07Conc {
+    pub fn run_empty_ahead(&self, c: &EmptyAheadCase) -> Outcome {
+        let mut out = Outcome::default();
+        out.nontrivial = true;
+        out.class("empty-datagram-right-ahead-of-a-query");
+        let listen_ip: IpAddr = match c.listener {
+            0 => IpAddr::V4(Ipv4Addr::LOCALHOST),
+            1 => IpAddr::V4(Ipv4Addr::UNSPECIFIED),
+            2 => IpAddr::V6(Ipv6Addr::LOCALHOST),
+            _ => IpAddr::V6(Ipv6Addr::UNSPECIFIED),
+        };
+        let port = crate::netns::free_port(listen_ip);
+        let routes = "dns-routes:\n  - domain-suffixes: [\"\"]\n    type: forward\n    dns-servers: [127.0.1.1]\n";
+        let conf = dns_config(&[SocketAddr::new(listen_ip, port)], routes, None);
+        let dst = SocketAddr::new(
+            match c.listener {
+                0 | 1 => IpAddr::V4(Ipv4Addr::LOCALHOST),
+                _ => IpAddr::V6(Ipv6Addr::LOCALHOST),
+            },
+            port,
+        );
+        let server = match DnsServer::start(&conf, dst, "warn") {
+            Ok(s) => s,
+            Err(e) => {
+                out.fail("rig-error", e);
+                return out;
+            }
+        };
+        let sock = match std::net::UdpSocket::bind((dst.ip(), 0)) {
+            Ok(s) => s,
+            Err(e) => {
+                out.fail("rig-error", e.to_string());
+                return out;
+            }
+        };
+        let mut buf = vec![0u8; 4096];
+        for k in 0..c.repeat.max(1) {
+            let question = dns::Question {
+                name: vec![unique_label(), format!("e{}", k).into_bytes(), b"empty".to_vec(), b"test".to_vec()],
+                qtype: 1,
+                qclass: 1,
+            };
+            let id = 0x7c00 + k as u16;
+            let q = dns::encode(&dns::query(id, &question.name, 1, 1, true, None), dns::Compress::Off);
+            for _ in 0..c.empties {
+                let _ = sock.send_to(&[], dst);
+            }
+            let _ = sock.send_to(&q, dst);
+            // nothing else is sent to the server while this query waits for its answer
+            sock.set_read_timeout(Some(Duration::from_secs(12))).ok();
+            match sock.recv_from(&mut buf) {
+                Ok((l, _)) => match dns::decode(&buf[..l]) {
+                    Ok((m, _)) if m.header.id == id && m.questions == vec![question.clone()] && m.full_rcode() == 0 && m.answer.len() == 1 && m.answer[0].rdata == answer_for(&question).rdata => {}
+                    other => {
+                        out.fail("C07:not-its-own-answer", format!("query {} sent right behind {} empty datagram(s): {:?}", k, c.empties, other.map(|(m, _)| (m.header.id, m.full_rcode(), m.answer.len()))));
+                        return out;
+                    }
+                },
+                Err(_) => {
+                    out.fail(
+                        "C07:no-response:behind-an-empty-datagram",
+                        format!(
+                            "query {} was sent right behind {} empty UDP datagram(s) and nothing after it: no response within 12 s (upstream saw {} transmissions); server panics: {:?}",
+                            k,
+                            c.empties,
+                            self.up.state.seen_for(&qkey(&question)).len(),
+                            server.panics()
+                        ),
+                    );
+                    return out;
+                }
+            }
+            std::thread::sleep(Duration::from_millis(700));
+        }
+        if let Some(p) = server.panics().first() {
+            out.fail("server-panic", p.clone());
+        }
+        out
+    }
+}
+
 impl WireProp for C07Conc {
     type Case = ConcCase;
     fn sub(&self) -> &'static str {
@@ -768,6 +860,20 @@ pub fn run_c07(ctx: &Ctx) {
             }
         }
     }
+    // an empty datagram right ahead of a query, nothing behind it
+    for (listener, empties) in [(0u8, 1u8), (1, 1), (2, 1), (3, 1), (3, 3)] {
+        let case = EmptyAheadCase { listener, empties, repeat: 4 };
+        let out = prop.run_empty_ahead(&case);
+        ctx.record("empty-ahead", &case, &out);
+        if let Some(f) = out.fail {
+            if ctx.is_known(&f.sig) {
+                ctx.known_hit(&f.sig);
+            } else {
+                ctx.violation("empty-ahead", &f, &case);
+                return;
+            }
+        }
+    }
     // a TCP client that pauses in mid-query while others ask
     for (i, cut) in [0u8, 1, 2, 3, 20].iter().enumerate() {
         let case = SlowWriterCase { listener: (i % 4) as u8, cut: *cut, others: 3 };
@@ -852,6 +958,13 @@ pub fn run_c07(ctx: &Ctx) {
 
 pub fn replay(id: &str, sub: &str, case: &serde_json::Value) -> Option<Result<Outcome, String>> {
     match (id, sub) {
+        ("C07", "empty-ahead") => {
+            let prop = match C07Conc::new() {
+                Ok(p) => p,
+                Err(e) => return Some(Err(format!("wire rig unavailable: {}", e))),
+            };
+            Some(serde_json::from_value::<EmptyAheadCase>(case.clone()).map_err(|e| e.to_string()).map(|c| prop.run_empty_ahead(&c)))
+        }
         ("C07", "slow-writer") => {
             let prop = match C07Conc::new() {
                 Ok(p) => p,
